@@ -10,6 +10,7 @@ mod s_src;
 mod s_cfg;
 mod s_parse;
 mod s_par;
+mod s_api;
 
 use std::io::{BufRead, Write};
 
@@ -30,6 +31,7 @@ fn run_line(line: &str) -> String {
         "CFG" => s_cfg::run(&idc, &restc),
         "PARSE" => s_parse::run(&idc, &restc),
         "PAR" => s_par::run(&idc, &restc),
+        "API" => s_api::run(&idc, &restc),
         _ => format!("{} unknown-stream", idc),
     });
     match r { Ok(s) => s, Err(_) => format!("{} panic", id) }
@@ -54,6 +56,7 @@ fn main() {
                 "CFG" => s_cfg::gen(seed, n, &mut out),
                 "PARSE" => s_parse::gen(seed, n, &mut out),
                 "PAR" => s_par::gen(seed, n, &mut out),
+                "API" => s_api::gen(seed, n, &mut out),
                 _ => panic!("unknown stream"),
             }
             print!("{}", out);
